@@ -63,6 +63,18 @@ class NewFunctionAbs13:
     returns = Obj(AbsFunction, g_stream=Same("self.g_stream"), g_function=Same("self.g_function"), g_value=Same("value"))
 
 
+@contract("secsgem.gem.equipment_constants_capability:EquipmentConstantsCapability._ec_value_fits", "C13", name="EcValueFitsAbs")
+class EcValueFitsAbs:
+    """ASSUMED (call-out: it asks the constant's item class of the codec, C01): True exactly when the value lies in the range
+    the constant's type can hold (ghost fields g_tlo .. g_thi of the constant; integer-valued view of this unit)."""
+
+    abstract = True
+    returns = Bool
+
+    def ensures(self, equipment_constant, value, result):
+        return result == (equipment_constant.g_tlo <= value and value <= equipment_constant.g_thi)
+
+
 def within(table, k, v):
     """v respects the declared limits of constant k - each limit may be absent (None in the code: ghost flags g_has_min/max)"""
     return (not table[k].g_has_min or table[k].min_value <= v) and (not table[k].g_has_max or v <= table[k].max_value)
@@ -71,17 +83,17 @@ def within(table, k, v):
 @contract("secsgem.gem.equipment_constants_capability:EquipmentConstantsCapability._on_s02f15", "C13")
 class OnS2F15:
     """S2F15 with 1..3 constants: EAC 0 exactly when every id is known and every value within that constant's limits (a
-    constant may declare both limits, one, or none); then
+    constant may declare both limits, one, or none) and within the range its type can hold at all (D49); then
     all are applied in order (last write wins for a repeated id), otherwise nothing is written; constants that were
     within their limits stay within them; the limits themselves are never touched."""
 
     cases = [(f"n{n}", {"n": n}) for n in (1, 2, 3)]
-    uses = [DecodeS2F15Abs, ItemGetAbs13, SetEcValueAbs, StreamFunctionAbs13, NewFunctionAbs13]
+    uses = [DecodeS2F15Abs, ItemGetAbs13, EcValueFitsAbs, SetEcValueAbs, StreamFunctionAbs13, NewFunctionAbs13]
 
     def inputs(n):
         return {"self": Obj(GemEquipmentHandler,
                             _equipment_constants=MapOf(EquipmentConstant, g_has_min=Bool, g_has_max=Bool, min_value=NoneUnless("g_has_min", Int),
-                                                       max_value=NoneUnless("g_has_max", Int), value=Int),
+                                                       max_value=NoneUnless("g_has_max", Int), value=Int, g_tlo=Int, g_thi=Int),
                             _settings=Obj(Settings, streams_functions=Obj(StreamsFunctions, g_req=FixedList(*[record() for _ in range(n)]))),
                             g_writes=Int),
                 "_handler": Const(None), "message": Const(None)}
@@ -96,7 +108,8 @@ class OnS2F15:
         vals = [r.ECV.g_value for r in req]
         ok = True
         for i_, v_ in zip(ids, vals):
-            ok = ok and (i_ in t0) and (not t0[i_].g_has_min or t0[i_].min_value <= v_) and (not t0[i_].g_has_max or v_ <= t0[i_].max_value)
+            ok = (ok and (i_ in t0) and t0[i_].g_tlo <= v_ and v_ <= t0[i_].g_thi
+                  and (not t0[i_].g_has_min or t0[i_].min_value <= v_) and (not t0[i_].g_has_max or v_ <= t0[i_].max_value))
         eac = result.g_value
 
         def final(k):
